@@ -5,6 +5,7 @@
 
 mod bookprops;
 mod c07;
+mod c15;
 mod marketx;
 mod envprops;
 mod envx;
@@ -42,6 +43,7 @@ fn main() {
         "C10" => envprops::c10(tier),
         "C11" => envprops::c11(tier),
         "C14" => envprops::c14(tier),
+        "C15" => c15::c15(tier),
         "C12" => bookprops::c12(tier),
         "C13" => bookprops::c13(tier),
         other => {
